@@ -1203,6 +1203,8 @@ def e2e_problem(rng):
            'regroup_improvement_tol': float(wl.choose(rng, [0.0, 0.01]))}
     P['orificing'] = orf
     P['setup']['calc_energy_balance'] = True
+    if rng.random() < 0.4:
+        P['setup']['include_gravity_head_loss'] = True
     feats = {'style': style, 'types': len(names), 'grouped': grouped,
              'n_asm_grouped': n_asm, 'n_groups': ng, 'gap': gap,
              'lin_cp': bool(lin_cp), 'regroup': orf['regroup'],
@@ -1337,12 +1339,15 @@ def run_e2e(case, res):
         def par_pre(args, kwargs):
             par['on'] = True
             par['runs'] = []
+            par['gravity'] = []
 
         def sweep_post(args, kwargs, out, tok):
             if par['on']:
                 a = args[0].assemblies[0]
                 par['runs'].append((a.name, float(a.flow_rate),
                                     float(a.pressure_drop)))
+                par.setdefault('gravity', []).append(bool(
+                    args[0]._options.get('include_gravity')))
 
         def par_post(args, kwargs, out, tok):
             par['on'] = False
@@ -1350,6 +1355,15 @@ def run_e2e(case, res):
             if not par['runs']:
                 res.count('parametric_tables_recycled')
                 return
+            want_g = bool(P['setup'].get('include_gravity_head_loss'))
+            res.check('T3_parametric_runs_keep_pressure_drop_options',
+                      all(g_ == want_g for g_ in par.get('gravity', [])),
+                      'single-assembly runs behind the parametric table were '
+                      'made with include_gravity_head_loss = %r, the input '
+                      'says %r (the table\'s pressure drops are compared '
+                      'with the limit)' % (sorted(set(par.get('gravity',
+                                                               []))), want_g),
+                      dict(key, gravity=want_g))
             names = list(o.orifice_input['assemblies_to_group'])
             for i, nm in enumerate(names):
                 tab = np.asarray(o._parametric['data'][i], dtype=float)
